@@ -16,7 +16,12 @@ Leg C  (property oracle)
       corruption: a sentinel is written through every result buffer that does not share memory with an
       operand, and a second operation is applied to the result, then the operands are compared again.
   C2  the same random call sequence on an array with and without caching: every outcome equal
-      (type, shape, dtype, fill value, dense values, error class), cached values still correct at the end.
+      (type, shape, dtype, fill value, dense values, error class), cached values still correct at the end;
+      nested: further operations (every permutation incl. the non-self-inverse ones of rank 3-4, reductions over
+      every axis, tensordot / dot over every axis, reshapes; two levels deep) applied to the RESULTS of cached calls,
+      each compared with the uncached run and with NumPy.
+  C1 also runs a "special operands" family (zero-mean lanes, all-equal lanes, symmetric +-values, explicitly stored
+      fill values, single element, fully dense, empty) through EVERY operation, with reductions over every axis.
 """
 from __future__ import annotations
 
@@ -554,7 +559,7 @@ def rand_index(rng, shp):
     return tuple(idx)
 
 
-def ops_for(rng, x, y, d):
+def ops_for(rng, x, y, d, all_axes=False):
     """yield (name, thunk, extra operands that must stay unchanged, exempt operands)
 
     x, y: sparse operands of equal shape (y possibly in another format); d: x's dense form"""
@@ -625,11 +630,21 @@ def ops_for(rng, x, y, d):
     for n in REDUCE:
         f = getattr(S, n)
         ax = None if (nd == 0 or rng.random() < 0.3) else int(rng.integers(-nd, nd))
-        if n.startswith("arg"):
-            yield f"reduce:{n}", (lambda f=f, ax=ax: f(x, axis=ax)), [], []
-        else:
-            kd = bool(rng.random() < 0.3)
-            yield f"reduce:{n}", (lambda f=f, ax=ax, kd=kd: f(x, axis=ax, keepdims=kd)), [], []
+        # special operands: every axis, None and (rank >= 2) a pair of axes — a shortcut keyed on one lane pattern must be reached
+        axes = [ax] if not all_axes else [None, *range(nd)] + ([(0, nd - 1)] if nd >= 2 else [])
+        for ax in axes:
+            tag = f"#{ax}" if all_axes else ""
+            if n.startswith("arg"):
+                if isinstance(ax, tuple):
+                    continue
+                yield f"reduce:{n}{tag}", (lambda f=f, ax=ax: f(x, axis=ax)), [], []
+            else:
+                kd = bool(rng.random() < 0.3)
+                yield f"reduce:{n}{tag}", (lambda f=f, ax=ax, kd=kd: f(x, axis=ax, keepdims=kd)), [], []
+                if all_axes and n in ("var", "std", "mean", "sum", "prod"):
+                    meth = getattr(x, n, None)
+                    if meth is not None:
+                        yield f"reduce:x.{n}{tag}", (lambda meth=meth, ax=ax: meth(axis=ax)), [], []
     if nd >= 2:
         yield "reduce:sum-2axes", lambda: x.sum(axis=(0, -1)), [], []
     yield "reduce:method", lambda: x.reduce(np.maximum, axis=tuple(range(nd))[:1]), [], []
@@ -750,11 +765,156 @@ SECOND_OPS = [
 ]
 
 
-def leg_c_unchanged(ctx, rng, n):
+def special_operands(rng, quick):
+    """operands on which value-keyed shortcuts fire: (name, dense, fill, explicit stored fill values?)"""
+    Z = np.array([[1, -1, 0, 0], [2, 0, -2, 0]])
+    sp = [
+        ("zero-mean-lanes", Z, 0, False),
+        ("zero-mean-lanes-T", Z.T.copy(), 0, False),
+        ("zero-mean-3d", np.stack([Z, -Z]), 0, False),
+        ("zero-mean-1d", np.array([3, 0, -1, -2, 0]), 0, False),
+        ("all-equal-lanes", np.array([[3, 3, 3], [0, 0, 0], [-2, -2, -2]]), 0, False),
+        ("all-equal", np.full((2, 3), 2), 0, False),
+        ("all-equal-is-fill", np.full((2, 3), 2), 2, True),
+        ("symmetric", np.array([[-2, -1, 0, 1, 2], [2, 1, 0, -1, -2]]), 0, False),
+        ("symmetric-2x2", np.array([[1, -1], [-1, 1]]), 0, False),
+        ("stored-fill-values", np.array([[0, 1, 0, 2], [3, 0, 0, 4]]), 0, True),
+        ("stored-fill-values-nonzero", np.array([[2, 1, 2, 2], [3, 2, 2, 4]]), 2, True),
+        ("single-element", np.array([[0, 0, 0], [0, 5, 0]]), 0, False),
+        ("single-element-1d", np.array([0, 0, 4]), 0, False),
+        ("fully-dense", np.arange(1, 7).reshape(2, 3), 0, False),
+        ("fully-dense-3d", np.arange(1, 25).reshape(2, 3, 4) - 12, 0, False),
+        ("ones-and-zeros", np.array([[1, 0, 1], [0, 1, 0]]), 0, False),
+        ("empty-pattern", np.zeros((2, 3), dtype=np.int64), 0, False),
+    ]
+    fmts = ["coo", "coo-cache", "gcxs", "dok"]
+    for i, (name, d, fill, stored) in enumerate(sp):
+        for j, dtype in enumerate((np.int64, np.float64)):
+            # quick: the two lane-pattern operands in every array format and both dtypes, the others in one format
+            # (rotating with the seed), float64 only where exact cancellation is the point
+            lanes = name in ("zero-mean-lanes", "all-equal-lanes")
+            pick = fmts if (not quick or lanes) else [fmts[(i + j + int(rng.integers(4))) % 4]]
+            if quick and j == 1 and not (lanes or name in ("zero-mean-3d", "symmetric", "zero-mean-lanes-T")):
+                continue
+            for fmt in dict.fromkeys(pick):
+                dd = d.astype(dtype)
+                if dtype is np.float64 and (i % 2):
+                    dd = dd / 2
+                yield name, dd, fill, stored, fmt
+
+
+def build_operand(rng, d, fill, fmt, stored_fill=False):
+    """dense -> (sparse operand, description); stored_fill keeps explicit entries equal to the fill value"""
     import sparse
 
-    ok_count, err_count, never_ok = {}, {}, set()
-    alias_obs = {}
+    if stored_fill:
+        idx = np.argwhere(np.ones(d.shape, dtype=bool)).T
+        keep = (d.reshape(-1) != fill) | (np.arange(d.size) % 2 == 0)  # every other fill-valued position is stored explicitly
+        c = sparse.COO(idx[:, keep], d.reshape(-1)[keep], shape=d.shape, fill_value=fill, has_duplicates=False, sorted=True, prune=False)
+    else:
+        c = sparse.COO.from_numpy(d, fill_value=fill)
+    if fmt == "coo":
+        return c, "coo"
+    if fmt == "coo-cache":
+        c.enable_caching()
+        return c, "coo-cache"
+    if fmt == "dok":
+        return sparse.DOK.from_coo(c), "dok"
+    if d.ndim < 2:
+        return sparse.GCXS.from_coo(c), "gcxs"
+    ch = gen.compressed_axes_choices(d.ndim)
+    ca = ch[int(rng.integers(len(ch)))]
+    return sparse.GCXS.from_coo(c, compressed_axes=ca), f"gcxs{list(ca)}"
+
+
+def sweep_case(ctx, rng, x, y, d, base, fmt, fdesc, st, all_axes=False, family="C"):
+    """every operation of the catalogue on (x, y): operands' storage before / after, delayed-corruption probes"""
+    import sparse
+
+    ok_count, err_count, alias_obs = st["ok"], st["err"], st["alias"]
+    for name, thunk, extra, _ in ops_for(rng, x, y, d, all_axes=all_axes):
+        case = dict(base, op=name)
+        operands = [x, y, *extra]
+        before = [snapshot(o) for o in operands]
+        with warnings.catch_warnings(), np.errstate(all="ignore"):
+            warnings.simplefilter("ignore")
+            try:
+                r, err = thunk(), None
+            except Exception as ex:  # noqa: BLE001
+                r, err = None, ex
+        opname = name.split("#")[0]
+        ctx.case(f"{family}:{opname}:{fdesc[:4]}", case, nontrivial=bool(d.size) and err is None)
+        cnt = ok_count if err is None else err_count
+        cnt[opname] = cnt.get(opname, 0) + 1
+        after = [snapshot(o) for o in operands]
+        failed = False
+        for i, (b, a) in enumerate(zip(before, after)):
+            msg = diff_snap(b, a)
+            if msg:
+                who = ["x", "y"][i] if i < 2 else f"extra{i - 2}"
+                detail = f"operand {who} changed by {name}{' (which raised ' + type(err).__name__ + ')' if err else ''}: {msg}"
+                ctx.fail("C", f"unchanged:{name}", case, detail, finding=findings.classify(PID, name, case, detail))
+                failed = True
+        if failed:
+            return False  # the operand is damaged: the remaining operations of this case would be judged on a wrong premise
+        if err is not None or r is None:
+            continue
+        # delayed corruption 1: a second operation on the result
+        if isinstance(r, sparse.SparseArray) and r.ndim >= 1 and rng.random() < 0.5:
+            sname, sf = SECOND_OPS[int(rng.integers(len(SECOND_OPS)))]
+            with warnings.catch_warnings(), np.errstate(all="ignore"):
+                warnings.simplefilter("ignore")
+                try:
+                    sf(sparse, r)
+                except Exception:  # noqa: BLE001
+                    pass
+            ctx.count("second_ops")
+            for i, (b, a) in enumerate(zip(before, [snapshot(o) for o in operands])):
+                msg = diff_snap(b, a)
+                if msg:
+                    detail = f"operand {i} changed by {sname}({name}(x)): {msg}"
+                    ctx.fail("C", f"delayed:{name}", dict(case, second=sname), detail, finding=findings.classify(PID, name, case, detail))
+                    failed = True
+        if failed:
+            return False
+        # delayed corruption 2: write a sentinel through every result buffer that is not a view of an operand
+        obufs = {}
+        for i, o in enumerate(operands):
+            obufs.update(buffers(o, f"{i}."))
+        wrote = 0
+        # (a cache-enabled operand keeps its results: writing into them is the downstream mutation that
+        #  enable_caching's contract excludes, so there the sentinel is not written)
+        for f, rb in ({} if fmt == "coo-cache" else buffers(r)).items():
+            owners = [o for o, ob in obufs.items() if shares(rb, ob)]
+            if owners:
+                alias_obs.setdefault(opname + ":" + fdesc[:4], set()).update((f, o) for o in owners)
+                continue
+            wrote += poison(rb)
+        ctx.count("sentinel_writes", wrote)
+        if wrote:
+            for i, (b, a) in enumerate(zip(before, [snapshot(o) for o in operands])):
+                msg = diff_snap(b, a)
+                if msg:
+                    detail = f"writing through {name}'s result changed operand {i}: {msg}"
+                    ctx.fail("C", f"delayed:{name}", case, detail, finding=findings.classify(PID, name, case, detail))
+                    return False
+    return True
+
+
+def leg_c_unchanged(ctx, rng, n):
+    st = {"ok": {}, "err": {}, "alias": {}}
+    # ---- special operands: lane patterns and value coincidences on which shortcuts are keyed, EVERY operation, every axis ----
+    n_special = 0
+    for sname, d, fill, stored, fmt in special_operands(rng, ctx.quick):
+        x, fdesc = build_operand(rng, d, fill, fmt, stored)
+        e = np.roll(d, 1, axis=-1) if d.ndim else d
+        y, ydesc = build_operand(rng, e, fill, "coo" if fmt.startswith("coo") else fmt)
+        base = {"special": sname, "format": fdesc, "other": ydesc, "shape": list(d.shape), "fill": fill, "dtype": d.dtype.name,
+                "stored_fill_values": stored, "dense": d.tolist(), "other_dense": e.tolist()}
+        sweep_case(ctx, rng, x, y, d, base, fmt, fdesc, st, all_axes=True, family="C:special")
+        n_special += 1
+    ctx.notes["special_operand_cases"] = n_special
+    # ---- random operands -------------------------------------------------------------------------------------------------
     for k in range(n):
         shp = gen.shape(rng, 0, 3, extents=[0, 1, 2, 2, 3, 3, 4], max_size=48)
         fill = [0, 0, 0, 2, -1][int(rng.integers(5))]
@@ -771,76 +931,15 @@ def leg_c_unchanged(ctx, rng, n):
         y, ydesc = gen.to_format(rng, e, None if rng.random() < 0.3 else ("coo" if fmt.startswith("coo") else fmt), fill)
         base = {"format": fdesc, "other": ydesc, "shape": list(shp), "fill": fill, "dtype": np.dtype(dtype).name,
                 "dense": d.tolist(), "other_dense": e.tolist()}
-        for name, thunk, extra, _ in ops_for(rng, x, y, d):
-            case = dict(base, op=name)
-            operands = [x, y, *extra]
-            before = [snapshot(o) for o in operands]
-            with warnings.catch_warnings(), np.errstate(all="ignore"):
-                warnings.simplefilter("ignore")
-                try:
-                    r, err = thunk(), None
-                except Exception as ex:  # noqa: BLE001
-                    r, err = None, ex
-            fam = f"C:{name.split('#')[0]}:{fdesc[:4]}"
-            ctx.case(fam, case, nontrivial=bool(d.size) and err is None)
-            (ok_count if err is None else err_count).__setitem__(name.split("#")[0], (ok_count if err is None else err_count).get(name.split("#")[0], 0) + 1)
-            after = [snapshot(o) for o in operands]
-            failed = False
-            for i, (b, a) in enumerate(zip(before, after)):
-                msg = diff_snap(b, a)
-                if msg:
-                    who = ["x", "y"][i] if i < 2 else f"extra{i - 2}"
-                    detail = f"operand {who} changed by {name}{' (which raised ' + type(err).__name__ + ')' if err else ''}: {msg}"
-                    ctx.fail("C", f"unchanged:{name}", case, detail, finding=findings.classify(PID, name, case, detail))
-                    failed = True
-            if err is not None or failed or r is None:
-                continue
-            # delayed corruption 1: a second operation on the result
-            if isinstance(r, sparse.SparseArray) and r.ndim >= 1 and rng.random() < 0.5:
-                sname, sf = SECOND_OPS[int(rng.integers(len(SECOND_OPS)))]
-                with warnings.catch_warnings(), np.errstate(all="ignore"):
-                    warnings.simplefilter("ignore")
-                    try:
-                        sf(sparse, r)
-                    except Exception:  # noqa: BLE001
-                        pass
-                ctx.count("second_ops")
-                for i, (b, a) in enumerate(zip(before, [snapshot(o) for o in operands])):
-                    msg = diff_snap(b, a)
-                    if msg:
-                        detail = f"operand {i} changed by {sname}({name}(x)): {msg}"
-                        ctx.fail("C", f"delayed:{name}", dict(case, second=sname), detail, finding=findings.classify(PID, name, case, detail))
-                        failed = True
-            if failed:
-                continue
-            # delayed corruption 2: write a sentinel through every result buffer that is not a view of an operand
-            obufs = {}
-            for i, o in enumerate(operands):
-                obufs.update(buffers(o, f"{i}."))
-            wrote = 0
-            # (a cache-enabled operand keeps its results: writing into them is the downstream mutation that
-            #  enable_caching's contract excludes, so there the sentinel is not written)
-            for f, rb in ({} if fmt == "coo-cache" else buffers(r)).items():
-                owners = [o for o, ob in obufs.items() if shares(rb, ob)]
-                if owners:
-                    alias_obs.setdefault(name.split("#")[0] + ":" + fdesc[:4], set()).update((f, o) for o in owners)
-                    continue
-                wrote += poison(rb)
-            ctx.count("sentinel_writes", wrote)
-            if wrote:
-                for i, (b, a) in enumerate(zip(before, [snapshot(o) for o in operands])):
-                    msg = diff_snap(b, a)
-                    if msg:
-                        detail = f"writing through {name}'s result changed operand {i}: {msg}"
-                        ctx.fail("C", f"delayed:{name}", case, detail, finding=findings.classify(PID, name, case, detail))
+        sweep_case(ctx, rng, x, y, d, base, fmt, fdesc, st)
         if k % 20 == 0:
             core.log(f"C11 leg C1 {k}/{n}")
-    never_ok = sorted(set(err_count) - set(ok_count))
+    ok_count, err_count = st["ok"], st["err"]
     ctx.notes["ops_enumerated"] = len(set(ok_count) | set(err_count))
-    ctx.notes["ops_never_returned"] = never_ok
+    ctx.notes["ops_never_returned"] = sorted(set(err_count) - set(ok_count))
     ctx.notes["op_returns"] = sum(ok_count.values())
     ctx.notes["op_raises"] = sum(err_count.values())
-    ctx.notes["views_observed"] = {k: sorted(map(list, v)) for k, v in sorted(alias_obs.items())}
+    ctx.notes["views_observed"] = {k: sorted(map(list, v)) for k, v in sorted(st["alias"].items())}
 
 
 # ------------------------------------------------------------------------------------------------
@@ -866,6 +965,84 @@ def outcome(thunk):
                 r.indices.tolist(), r.indptr.tolist(), r.data.tolist()), r
     r2 = np.asarray(r)
     return ("ok", type(r).__name__, r2.shape, str(r2.dtype), r2.tobytes()), r
+
+
+def followups(rng, shape, depth=0):
+    """operations applied to the RESULT of a cached call (itself cache-enabled): (name, sparse thunk, numpy thunk).
+    Every permutation (rank <= 3; a sample for rank 4, non-self-inverse ones first), a reduction over every axis (these
+    transpose internally), tensordot / dot over every axis, reshapes."""
+    import itertools
+
+    import sparse
+
+    k = len(shape)
+    fs = []
+    perms = list(itertools.permutations(range(k))) if k <= 3 else []
+    if k == 4:
+        allp = list(itertools.permutations(range(4)))
+        inv = lambda p: tuple(int(i) for i in np.argsort(p))  # noqa: E731
+        cyc = [p for p in allp if inv(p) != p]
+        perms = [cyc[int(i)] for i in rng.choice(len(cyc), size=5, replace=False)] + [allp[int(rng.integers(len(allp)))]]
+    for p in perms:
+        if k >= 2 and p != tuple(range(k)):
+            fs.append((f"transpose{p}", (lambda r, p=p: r.transpose(p)), (lambda a, p=p: a.transpose(p))))
+    for ax in range(k):
+        fs.append((f"sum(axis={ax})", (lambda r, ax=ax: r.sum(axis=ax)), (lambda a, ax=ax: a.sum(axis=ax))))
+        fs.append((f"max(axis={ax})", (lambda r, ax=ax: r.max(axis=ax)), (lambda a, ax=ax: a.max(axis=ax))))
+        if shape[ax]:
+            b = gen.dense(rng, (shape[ax], 2), 0, density=0.7)
+            bs = sparse.COO.from_numpy(b)
+            fs.append((f"tensordot(axes=([{ax}],[0]))", (lambda r, ax=ax, bs=bs: sparse.tensordot(r, bs, axes=([ax], [0]))),
+                       (lambda a, ax=ax, b=b: np.tensordot(a, b, axes=([ax], [0])))))
+    if k >= 1 and shape[-1]:
+        b = gen.dense(rng, (shape[-1], 3), 0, density=0.7)
+        fs.append(("dot", (lambda r, b=b: r.dot(b)), (lambda a, b=b: a.dot(b))))
+    if k >= 2:
+        fs.append(("sum(axis=(0,-1))", (lambda r: r.sum(axis=(0, -1))), (lambda a: a.sum(axis=(0, -1)))))
+        fs.append(("reshape(s0,-1)", (lambda r: r.reshape((r.shape[0], -1))), (lambda a: a.reshape((a.shape[0], -1)))))
+        fs.append(("T", (lambda r: r.T), (lambda a: a.T)))
+    fs.append(("reshape(-1)", (lambda r: r.reshape((-1,))), (lambda a: a.reshape((-1,)))))
+    return fs
+
+
+def nested_check(ctx, rng, case, path, rc, rp, dn, depth, budget):
+    """apply follow-up operations to the results of a cached call: with caching == without caching == NumPy"""
+    import sparse
+
+    fs = followups(rng, dn.shape, depth)
+    if depth > 0:
+        fs = [fs[int(i)] for i in rng.choice(len(fs), size=min(len(fs), 4), replace=False)]
+    for name, f, fnp in fs:
+        if budget[0] <= 0:
+            return True
+        budget[0] -= 1
+        ctx.count("nested_followups")
+        got, gr = outcome(lambda: f(rc))
+        want, wr = outcome(lambda: f(rp))
+        with warnings.catch_warnings(), np.errstate(all="ignore"):
+            warnings.simplefilter("ignore")
+            try:
+                ref = np.asarray(fnp(dn))
+            except Exception:  # noqa: BLE001
+                ref = None
+        where = " -> ".join(path + [name])
+        detail = None
+        if got != want:
+            detail = f"{where}: on the result of the cached call {_short(got)}; on the result of the uncached call {_short(want)}"
+        elif ref is not None and got[0] == "ok":
+            dense = gr.todense() if isinstance(gr, sparse.SparseArray) else np.asarray(gr)
+            if dense.shape != ref.shape or not np.array_equal(dense, ref):
+                detail = f"{where}: result {dense.tolist()!r:.120} (shape {dense.shape}); NumPy {ref.tolist()!r:.120} (shape {ref.shape})"
+        # (a call that raises identically with and without caching — e.g. a product on a non-zero fill value — is a clean
+        #  rejection, which C11 does not judge)
+        if detail:
+            c2 = dict(case, nested=path + [name])
+            ctx.fail("C", "cached-nested", c2, detail, finding=findings.classify(PID, "cached", c2, detail))
+            return False
+        if depth < 1 and got[0] == "ok" and isinstance(gr, sparse.COO) and isinstance(wr, sparse.COO) and ref is not None and gr.ndim >= 2:
+            if not nested_check(ctx, rng, case, path + [name], gr, wr, ref, depth + 1, budget):
+                return False
+    return True
 
 
 def leg_c_cached(ctx, rng, n):
@@ -924,13 +1101,25 @@ def leg_c_cached(ctx, rng, n):
                 "calls": [[c[0], c[1].tolist() if isinstance(c[1], np.ndarray) else c[1]] for c in calls]}
         ctx.case("C:cached-vs-uncached", case, nontrivial=len(calls) > 1)
         before = snapshot(cached)
+        budget = [36 if ctx.quick else 400]  # follow-up operations per sequence
         for i, c in enumerate(calls):
-            want, _ = outcome(lambda: apply(plain, c))
-            got, _ = outcome(lambda: apply(cached, c))
+            want, wr = outcome(lambda: apply(plain, c))
+            got, gr = outcome(lambda: apply(cached, c))
             if want != got:
                 detail = f"call {i} {case['calls'][i]}: with caching {_short(got)}; without {_short(want)}"
                 ctx.fail("C", "cached-vs-uncached", dict(case, step=i), detail, finding=findings.classify(PID, "cached", case, detail))
                 break
+            # nested: the result of a cached call is a cache-enabled array of its own — operate on it
+            if got[0] == "ok" and c[0] in ("t", "r", "T") and gr is not cached and isinstance(gr, sparse.COO) and budget[0] > 0 \
+                    and (i < 2 or rng.random() < (0.1 if ctx.quick else 0.3)):
+                dn = wr.todense()
+                ref0 = d.T if c[0] == "T" else (d.transpose(c[1]) if c[1] is not None else d.transpose()) if c[0] == "t" else d.reshape(c[1])
+                if dn.shape != ref0.shape or not np.array_equal(dn, ref0):
+                    detail = f"call {i} {case['calls'][i]}: result differs from NumPy"
+                    ctx.fail("C", "cached-vs-numpy", dict(case, step=i), detail, finding=findings.classify(PID, "cached", case, detail))
+                    break
+                if not nested_check(ctx, rng, dict(case, step=i), [f"{c[0]}{case['calls'][i][1]}"], gr, wr, ref0, 0, budget):
+                    break
             msg = diff_snap(before, snapshot(cached))
             if msg:
                 detail = f"the cache-enabled array changed at call {i} {case['calls'][i]}: {msg}"
@@ -966,9 +1155,9 @@ def run(ctx):
     # verdict: it is reported in the evidence and, in the thorough tier, deepens the search
     boost = 3 if (inventory_drift(ctx) and not ctx.quick) else 1
     leg_a_cache(ctx, rng, 400 if ctx.quick else 6000)
-    leg_a_alias(ctx, rng, (4 if ctx.quick else 100) * boost)
-    leg_c_unchanged(ctx, rng, (60 if ctx.quick else 3000) * boost)
-    leg_c_cached(ctx, rng, (300 if ctx.quick else 6000) * boost)
+    leg_a_alias(ctx, rng, (3 if ctx.quick else 100) * boost)
+    leg_c_unchanged(ctx, rng, (30 if ctx.quick else 3000) * boost)
+    leg_c_cached(ctx, rng, (200 if ctx.quick else 6000) * boost)
     ctx.cov["rule"] = (
         "A:cache = one random call sequence (1..40 calls drawn from a pool of <=6 permutations, <=6 reshape targets, tocsr, tocsc, "
         "raw argument forms varied) on one cache-enabled COO array (root or a cache-enabled result), compared with the model after every call; "
